@@ -180,3 +180,20 @@ Theorem mark_completed_total : forall cs lay ops idx, cfg_ok cs lay ->
   snd (step c s (OpMark idx)) = OutMark true.
 Proof. exact ProofsE.mark_completed_total. Qed.
 Print Assumptions mark_completed_total.
+
+(* FileList::update_completed recounts from the bitfield alone: stale per-file counters (from a
+   previous session of a closed and re-opened torrent) never survive it *)
+Theorem update_completed_fresh : forall c done fc fc', length fc = length fc' ->
+  update_completed c done fc = update_completed c done fc'.
+Proof. exact ProofsE.update_completed_fresh. Qed.
+Print Assumptions update_completed_fresh.
+
+(* close + re-open without resume data (bitfield allocate + unset_all + update_completed):
+   nothing completed, every per-file counter 0, file bytes untouched *)
+Theorem reopen_resets : forall cs lay s, cfg_ok cs lay ->
+  let c := mk_cfg cs lay in
+  step c s OpReopen =
+  (mkState (s_store s) (repeat false (N.to_nat (size_chunks c))) (map (fun _ => 0) (s_fcomp s)),
+   OutUpd true).
+Proof. exact ProofsE.reopen_resets. Qed.
+Print Assumptions reopen_resets.
